@@ -156,7 +156,20 @@ def run(ctx):
                     fails.append({"what": f"TZAware member {dt.isoformat()} reads back as {back.isoformat()}", "type": "TZAware", "arg": str(us)})
             except Exception as e:  # noqa: BLE001
                 fails.append({"what": f"TZAware member rejected by its writer: {type(e).__name__}", "type": "TZAware", "arg": str(us)})
-    # other time zones are the same instants
+    # membership is a property of the *instant*: the same candidates (and the hours around the
+    # epoch, where wall-clock date and instant disagree) expressed in other zones
+    zones = [datetime.timezone(datetime.timedelta(hours=h, minutes=m)) for h, m in
+             ((14, 0), (-12, 0), (5, 30), (1, 0), (0, 1), (-1, 0), (0, -1))]
+    H = 3600 * 10**6
+    near = {s * (k * H + d) for s in (1, -1) for k in (0, 1, 5, 12, 14) for d in (0, 1000, -1000, 59 * 60 * 10**6 + 999000)}
+    for us in sorted(near | set(list(sorted(cand))[::12])):
+        for z in zones:
+            try:
+                dt = (EPOCH + datetime.timedelta(microseconds=us)).astimezone(z)
+            except OverflowError:
+                continue
+            probe("TZAware", "dta", us, dt, us >= 0 and us % 1000 == 0)
+            probe("TZAwareMicros", "dta", us, dt, us >= 0)
     tz = datetime.timezone(datetime.timedelta(hours=5, minutes=30))
     for us in (0, 1000, 1234567890123000):
         dt = (EPOCH + datetime.timedelta(microseconds=us)).astimezone(tz)
